@@ -404,7 +404,7 @@ func Run(r *evid.Run) {
 		}
 	}
 	r.Extra("three_operation_branch_units", len(units)-threeFrom)
-	r.Rule(fmt.Sprintf("transactions = predicate lists (0..2 of %d predicates: existence / EQUAL / NOT_EQUAL / GREATER / LESS on present, missing, empty-valued keys and on non-empty and empty ranges) x success/failure lists (<= 2 operations per branch from %d operations: single and range reads with limit/count, puts with and without prev_kv, single and range deletes with flags; quick: <= 2 operations in total, thorough: <= 3; plus every list of exactly 3 operations as the success branch of a transaction without predicates and as the failure branch of a transaction with a false predicate) x %d pre-states x 4 embedding positions in an apply call {alone, after a put, after a range delete, followed by a put}; executed chained on live real FSMs (state restored by a real batch) and compared with the model: succeeded flag, n-th response for n-th op, state afterwards, applied index; read-only transactions additionally through FSM.Lookup(TxnRequest). A failing case is re-run alone on a fresh FSM. Atomic visibility: an updater applying a transaction (alone / after a put in the same call / with range delete + put) against a reader doing two full-range lookups, scheduling point before every statement, all interleavings up to the preemption bound. Non-trivial: the transaction returned a response or changed state; distinct = distinct (responses, state-after) renderings", len(preds), len(ops), len(preStates)))
+	r.Rule(fmt.Sprintf("transactions = predicate lists (0..2 of %d predicates: existence / EQUAL / NOT_EQUAL / GREATER / LESS on present, missing, empty-valued keys and on non-empty and empty ranges) x success/failure lists (<= 2 operations per branch from %d operations: single and range reads with limit/count, puts with and without prev_kv, single and range deletes with flags; quick: <= 2 operations in total, thorough: <= 3; plus every list of exactly 3 operations as the success branch of a transaction without predicates and as the failure branch of a transaction with a false predicate) x %d pre-states x 4 embedding positions in an apply call {alone, after a put, after a range delete, followed by a put}; executed chained on live real FSMs (state restored by a real batch) and compared with the model: succeeded flag, n-th response for n-th op, state afterwards, applied index; read-only transactions additionally through FSM.Lookup(TxnRequest). A failing case is re-run alone on a fresh FSM. Range predicates (EQUAL / NOT_EQUAL) over six 1 MiB pairs - more than one response message carries - with the odd value at every position, through the log and the read-only path. Atomic visibility: an updater applying a transaction (alone / after a put in the same call / with range delete + put) against a reader doing two full-range lookups, scheduling point before every statement, all interleavings up to the preemption bound. Non-trivial: the transaction returned a response or changed state; distinct = distinct (responses, state-after) renderings", len(preds), len(ops), len(preStates)))
 	r.Extra("units", len(units))
 	const chunk = 8
 	nchunks := int64((len(units) + chunk - 1) / chunk)
@@ -464,6 +464,7 @@ func Run(r *evid.Run) {
 	r.Sample(mc)
 	runVisibility(r)
 	runHugeCall(r)
+	runLargeRange(r)
 	// transactions over pending writes of the same apply call, for every pair of key lengths 1..20
 	// (the sweep lives in C01: plain puts, then a transaction with a range predicate and reads, counted
 	// deletes ... in ONE call); only the transaction results are C02's
@@ -499,6 +500,11 @@ func Replay(raw json.RawMessage) (string, bool) {
 	case "huge-call":
 		rr := evid.NewRun("C02", "exploration")
 		runHugeCall(rr)
+		sigs := rr.ViolationSignatures()
+		return strings.Join(sigs, "; ") + "\n", len(sigs) == 0
+	case "large-range":
+		rr := evid.NewRun("C02", "exploration")
+		runLargeRange(rr)
 		sigs := rr.ViolationSignatures()
 		return strings.Join(sigs, "; ") + "\n", len(sigs) == 0
 	case "lengths":
@@ -581,6 +587,79 @@ func runHugeCall(r *evid.Run) {
 		if li >= txnIdx && n != 3 {
 			r.Violate("huge-call/transaction-recorded-as-applied-without-its-effects", fmt.Sprintf("%d x 2MiB puts + transaction at index %d: applied index %d but %d of its 3 pairs visible", plain, txnIdx, li, n), cs)
 		}
+	}
+}
+
+// runLargeRange: a range predicate holds only if EVERY key of the range satisfies it - also when the
+// range holds more data than one response message carries (4 MiB): six pairs of 1 MiB each, all equal
+// or with one odd value at each position in turn; EQUAL / NOT_EQUAL predicates over the whole range
+// through the log (a branch marker is written) and through the read-only path.
+func runLargeRange(r *evid.Run) {
+	const n = 6
+	same, odd := strings.Repeat("S", 1<<20), strings.Repeat("S", 1<<20-1)+"X"
+	for j := -1; j < n; j++ {
+		env := fsmx.NewEnv()
+		inst, _, err := env.Open("t", 10001, fsm.RecoveryTypeSnapshot)
+		if err != nil {
+			r.Inconcl.Add(1)
+			return
+		}
+		idx := uint64(0)
+		ok := true
+		for i := 0; i < n; i++ {
+			v := same
+			if i == j {
+				v = odd
+			}
+			idx++
+			if _, err := inst.F.Update([]sm.Entry{fsmx.Entry(idx, Put(fmt.Sprintf("r%d", i), v, false))}); err != nil {
+				ok = false
+			}
+		}
+		if !ok {
+			inst.Close()
+			r.Inconcl.Add(1)
+			continue
+		}
+		for _, pc := range []struct {
+			name string
+			cmp  *regattapb.Compare
+			want bool
+		}{
+			{"all-EQUAL", Cmp("r", wild, regattapb.Compare_EQUAL, same), j < 0},
+			{"all-NOT_EQUAL-odd", Cmp("r", wild, regattapb.Compare_NOT_EQUAL, odd), j < 0},
+		} {
+			cs := map[string]any{"kind": "large-range", "odd_at": j, "predicate": pc.name}
+			wire := fsmx.Wire(Txn(Cmps(pc.cmp), Ops(OpGet("r0", nil, 0, true, false)), Ops(OpGet("r1", nil, 0, true, false))))
+			res, lerr := inst.Lookup(&regattapb.TxnRequest{Table: Table, Compare: wire.Txn.Compare, Success: wire.Txn.Success, Failure: wire.Txn.Failure})
+			if lerr != nil {
+				r.Violate("large-range/read-only-path-error", lerr.Error(), cs)
+			} else if got := res.(*regattapb.TxnResponse).Succeeded; got != pc.want {
+				r.Violate("large-range/predicate-over-a-range-larger-than-one-message/read-only", fmt.Sprintf("%s over six 1 MiB pairs, odd value at %d: succeeded=%v", pc.name, j, got), cs)
+			}
+			idx++
+			if _, err := inst.F.Update([]sm.Entry{fsmx.Entry(idx, Txn(Cmps(pc.cmp), Ops(OpPut("marker", "then", false)), Ops(OpPut("marker", "else", false))))}); err != nil {
+				r.Violate("large-range/update-error", err.Error(), cs)
+				continue
+			}
+			kvs, _ := inst.All()
+			marker := ""
+			for _, kv := range kvs {
+				if string(kv.Key) == "marker" {
+					marker = string(kv.Value)
+				}
+			}
+			want := "else"
+			if pc.want {
+				want = "then"
+			}
+			r.Outcome(fmt.Sprint("large-range", j, pc.name, marker), true)
+			r.AddExtra("large_range_predicate_cases", 1)
+			if marker != want {
+				r.Violate("large-range/predicate-over-a-range-larger-than-one-message/write", fmt.Sprintf("%s over six 1 MiB pairs, odd value at %d: the %q branch ran", pc.name, j, marker), cs)
+			}
+		}
+		inst.Close()
 	}
 }
 
